@@ -115,7 +115,8 @@ Obj mk_rel(int i, int vlen, uint64_t& st) {
 // B is A with a 512 byte internal buffer (operator()(Item) hits buffer_is_full and flushes by itself).
 // L: long history, incompressible tag values: the compressed output is larger than zlib's and stdio's
 //    buffers, so write errors surface while the history is still running. Object types alternate (many PBF blobs).
-// H: huge history for bzip2 (input > one 600k block, so BZ2_bzWrite itself writes to the file).
+// H: huge history (650 KB of XML) for bzip2 and gzip: the input is larger than one bzip2 block / several deflate blocks,
+//    so BZ2_bzWrite and gzwrite themselves write to the file (otherwise everything is written by the close functions).
 History make_history(char h) {
     History H;
     uint64_t st = 0x243F6A8885A308D3ull;
@@ -318,7 +319,8 @@ Outcome run_history(const Cfg& c, const Plan& p, const std::string& path) {
     fp.n = p.n; fp.err = p.err;
     const bool with_loc = c.hist == 'E';
     const int bad_way = p.kind == "encoder" ? static_cast<int>(p.n) : -1;     // index among the ways
-    out.threads_before = count_threads();
+    // a case starts single-threaded; threads of the previous case (its Reader) may still be vanishing from /proc
+    for (int i = 0; i < 10000 && (out.threads_before = count_threads()) != 1; ++i) { struct timespec ts{0, 1000000}; nanosleep(&ts, nullptr); }
     c08f::arm(fp);
     if (p.kind == "rlimit") c08f::set_fsize_limit(static_cast<unsigned long>(p.n));
     {
@@ -494,9 +496,12 @@ std::vector<long> offsets(long size, bool all, long stride) {
         for (long o = 0; o < size; o += stride) s.insert(o);
         for (long b : {0L, 10L, 4096L, 5000L, 8192L, 10000L, 16384L, 32768L, 65536L}) for (long d = -1; d <= 1; ++d) if (b + d >= 0 && b + d < size) s.insert(b + d);
         for (long d = 1; d <= 12 && d <= size; ++d) s.insert(size - d);
+        if (size > 65536) for (long unit : {4096L, 5000L, 8192L}) for (long b = unit; b < size; b += unit) for (long d = -1; d <= 1; ++d) if (b + d < size) s.insert(b + d);
     }
     return std::vector<long>(s.begin(), s.end());
 }
+
+bool g_force_every = false;      // development aid: "--every-offset" enumerates every offset for every plan kind and history
 
 std::vector<Plan> plans_for(const Cfg& c, const Dry& d, bool thorough) {
     std::vector<Plan> v;
@@ -508,18 +513,22 @@ std::vector<Plan> plans_for(const Cfg& c, const Dry& d, bool thorough) {
         return v;
     }
     const bool stdio = c.comp == "bz2";         // libbz2 writes through stdio: write() inside libc is not interposable
-    const bool every = thorough ? (c.hist != 'H' && !(c.hist == 'L' && c.paced)) : (c.hist == 'A' && !c.paced);
-    const long stride = c.hist == 'H' ? 997 : c.hist == 'L' ? (thorough ? 13 : 61) : 7;
+    // which lists are complete: quick - history A with the fast producer; thorough - histories A and B everywhere, history L
+    // for the kernel (RLIMIT_FSIZE) faults with fsync (a superset of the calls made without); the rest is strided
+    const bool every = g_force_every || (thorough ? (c.hist == 'A' || c.hist == 'B') : (c.hist == 'A' && !c.paced));
+    const bool every_rlimit = every || (thorough && c.hist == 'L' && !c.paced && c.fsync);
+    const long stride = c.hist == 'H' ? (thorough ? 997 : 9973) : c.hist == 'L' ? (thorough ? 13 : 61) : 7;
     const std::vector<long> offs = offsets(d.size, every, stride);
-    for (long o : offs) add("rlimit", o, EFBIG);
+    for (long o : offsets(d.size, every_rlimit, stride)) add("rlimit", o, EFBIG);
+    const bool offset_sim = thorough || c.hist != 'H';      // quick, history H: kernel faults and call indices only
     if (!stdio) {
-        for (long o : offs) add("write_off", o, (o & 1) ? EIO : ENOSPC);
+        if (offset_sim) for (long o : offs) add("write_off", o, (o & 1) ? EIO : ENOSPC);
         if (thorough && c.hist != 'L') for (long o : offs) add("write_off", o, (o & 1) ? ENOSPC : EIO);
         for (int n = 1; n <= d.st.n_write; ++n) { add("write_nth", n, ENOSPC); add("write_nth", n, EIO); add("write_eintr", n, EINTR); }
         for (long m : offsets(d.st.max_write_len, every, stride)) if (m >= 1) add("write_short", m, 0);
         for (int n = 1; n <= d.st.n_close; ++n) { add("close_nth", n, EIO); add("close_nth", n, ENOSPC); }
     } else {
-        for (long o : offs) add("fwrite_off", o, (o & 1) ? EIO : ENOSPC);
+        if (offset_sim) for (long o : offs) add("fwrite_off", o, (o & 1) ? EIO : ENOSPC);
         for (int n = 1; n <= d.st.n_fwrite; ++n) { add("fwrite_nth", n, ENOSPC); add("fwrite_nth", n, EIO); }
         for (int n = 1; n <= d.st.n_fflush; ++n) { add("fflush_nth", n, ENOSPC); add("fflush_nth", n, EIO); }
         for (int n = 1; n <= d.st.n_fclose; ++n) { add("fclose_nth", n, ENOSPC); add("fclose_nth", n, EIO); }
@@ -547,11 +556,11 @@ std::vector<Group> groups(bool T) {
     product(std::string("history A, paced producer (errors surface from operator()/flush()), queue 20, pool 2: ") + (T ? "every byte offset" : "offsets strided by 7 + buffer boundaries"), 'A', 20, 2, 1);
     product(std::string("history B (512 byte internal buffer, operator()(Item) flushes by itself), paced producer: ") + (T ? "every byte offset" : "offsets strided by 7 + buffer boundaries"), 'B', 2, 2, 1);
     {
-        Group gr; gr.name = "history H (bzip2 input > one 600k block): offsets strided by 997 + buffer boundaries, every stdio call index";
-        for (int fs = 0; fs < 2; ++fs) gr.cfgs.push_back(Cfg{"osm", "bz2", fs, 'H', 20, 2, 0});
+        Group gr; gr.name = std::string("history H (650 KB of XML: BZ2_bzWrite and gzwrite themselves write to the file): offsets strided by ") + (T ? "997" : "9973 (RLIMIT_FSIZE only)") + " + all multiples of 4096/5000/8192 +-1, every call index";
+        for (const char* cm : {"bz2", "gz"}) for (int fs = 0; fs < 2; ++fs) gr.cfgs.push_back(Cfg{"osm", cm, fs, 'H', 20, 2, 0});
         g.push_back(gr);
     }
-    product(std::string("history L (output larger than the zlib/stdio buffers): ") + (T ? "every byte offset" : "offsets strided by 61 + buffer boundaries"), 'L', 3, 2, 0);
+    product(std::string("history L (output larger than the zlib/stdio buffers): ") + (T ? "every byte offset through RLIMIT_FSIZE with fsync, other offset plans strided by 13 + buffer boundaries" : "offsets strided by 61 + buffer boundaries"), 'L', 3, 2, 0);
     if (T) product("history L, paced producer: offsets strided by 13 + buffer boundaries", 'L', 20, 1, 1);
     return g;
 }
@@ -567,7 +576,13 @@ int main(int argc, char** argv) {
     for (char h : {'A', 'B', 'E', 'L', 'H'}) g_hist[h] = make_history(h);
     mkdir("/verif/build", 0777);
     mkdir("/verif/build/C08-data", 0777);
-    g_path_base = "/verif/build/C08-data/" + std::to_string(getpid());
+    const std::string scratch = "/verif/build/C08-data/f" + std::to_string(getpid());      // scratch directory of this process, removed at the end
+    mkdir(scratch.c_str(), 0777);
+    g_path_base = scratch + "/w";
+    struct Cleanup { std::string dir; ~Cleanup() {
+        if (DIR* d = opendir(dir.c_str())) { while (dirent* e = readdir(d)) if (e->d_name[0] != '.') unlink((dir + "/" + e->d_name).c_str()); closedir(d); }
+        rmdir(dir.c_str());
+    } } cleanup{scratch};      // runs in this process only (children leave through _exit)
 
     if (a.replay) {
         // one case; real threads make the point where an error surfaces timing dependent, so a recorded
@@ -581,8 +596,14 @@ int main(int argc, char** argv) {
             pid_t pid = fork();
             if (pid == 0) {
                 alarm(600);
-                Outcome o = run_history(c, p, path);
-                const bool bad = judge(c, p, o, path, true);
+                const int efd = open((path + ".err").c_str(), O_WRONLY | O_CREAT | O_TRUNC, 0600);   // what the child says when it dies
+                if (efd >= 0) { dup2(efd, 2); close(efd); }
+                // timing aid: the later attempts pace the producer (same data, same plan; only the moment at which the
+                // producer makes its next call changes), so that an error is noticed by operator()/flush() already
+                Cfg c2 = c;
+                if (attempt >= 8) c2.paced = 1;
+                Outcome o = run_history(c2, p, path);
+                const bool bad = judge(c2, p, o, path, true);
                 unlink(path.c_str());
                 _exit(bad ? 1 : 0);
             }
@@ -590,15 +611,37 @@ int main(int argc, char** argv) {
             waitpid(pid, &status, 0);
             if (WIFSIGNALED(status)) {
                 const std::string what = WTERMSIG(status) == SIGALRM ? "hang" : "signal:" + std::to_string(WTERMSIG(status));
-                benum::viol("writer/" + benum::death_class(what, "") + "/" + c.ext() + "/" + p.kind, "[" + a.replay_spec + "] child died: " + what, a.replay_spec);
+                const std::string err = benum::slurp(path + ".err");
+                benum::viol("writer/" + benum::death_class(what, err) + "/" + c.ext() + "/" + p.kind, "[" + a.replay_spec + "] child died: " + what + " | " + benum::clean(err.substr(0, 600)), a.replay_spec);
                 seen = true;
             } else if (WEXITSTATUS(status) == 1) seen = true;
         }
         unlink(path.c_str());
+        unlink((path + ".err").c_str());
         return 0;
     }
 
-    const std::vector<Group> G = groups(a.thorough);
+    std::string only_hist;
+    for (size_t i = 0; i < a.rest.size(); ++i) {
+        if (a.rest[i] == "--every-offset") g_force_every = true;
+        if (a.rest[i] == "--only-hist" && i + 1 < a.rest.size()) only_hist = a.rest[i + 1];
+    }
+    for (size_t i = 0; i + 2 < a.rest.size(); ++i) if (a.rest[i] == "--leaktest") {     // development aid: same case n times in one process
+        Cfg c; Plan p; parse_spec(a.rest[i + 1], c, p);
+        const std::string path = g_path_base + "-leak." + c.ext();
+        for (int k = 0, n = atoi(a.rest[i + 2].c_str()); k < n; ++k) {
+            Outcome o = run_history(c, p, path); judge(c, p, o, path, true);
+            if (k % (n / 10 ? n / 10 : 1) == 0) { std::string st = benum::slurp("/proc/self/statm"); printf("iter %d statm %s", k, st.c_str()); }
+        }
+        unlink(path.c_str());
+        return 0;
+    }
+    std::vector<Group> G = groups(a.thorough);
+    if (!only_hist.empty()) {
+        std::vector<Group> keep;
+        for (auto& gr : G) if (gr.cfgs[0].hist == only_hist[0]) keep.push_back(gr);
+        G = keep;
+    }
     unsigned gi = 0;
     for (const Group& gr : G) {
         ++gi;
@@ -638,16 +681,26 @@ int main(int argc, char** argv) {
                 benum::sample(s.str());
             }
             unlink(path.c_str());
+            // libbz2 keeps its compression state (several MB) when BZ2_bzWriteClose64 fails and the library never calls it
+            // again with abandon=1: a child that runs thousands of failing cases grows. Recycle it (exit code 77 makes
+            // run_isolated start a fresh child at the next rank; the case is already judged and counted).
+            long vsz = 0, rss = 0;
+            if (sscanf(benum::slurp("/proc/self/statm").c_str(), "%ld %ld", &vsz, &rss) == 2 && (rss > 32768 || vsz > 1048576)) { fflush(stdout); _exit(77); }
         };
         auto on_death = [&](uint64_t rank, const std::string& what, const std::string& err) {
+            if (what == "exit:77") { counters["note_children_recycled_for_memory"]++; return; }
             const Case& cs = cases[rank];
             const std::string spec = cs.c->name() + "|" + cs.p.name();
             counters["evaluations"]++;
             g_viol.report("writer/" + benum::death_class(what, err) + "/" + cs.c->ext() + "/" + cs.p.kind, "[" + spec + "] child died: " + what + " | " + benum::clean(err.substr(0, 600)), spec);
             unlink((path_stem + "." + cs.c->ext()).c_str());
         };
-        benum::Isolation iso; iso.case_timeout_s = 30.0;
+        // watchdog: a case takes milliseconds (history H: ~0.1 s); a child silent for 8 s (H: 20 s) is killed and the case is
+        // re-run alone with ten times that limit before it counts as a hang
+        benum::Isolation iso; iso.case_timeout_s = gr.cfgs[0].hist == 'H' ? 20.0 : 8.0;
+        const auto t_start = std::chrono::steady_clock::now();
         const bool complete = benum::run_isolated(a, 0, cases.size(), body, on_death, iso);
+        if (a.shard == 0) benum::note("group " + std::to_string(gi) + ": " + std::to_string(cases.size()) + " cases over all shards, " + std::to_string(static_cast<int>(std::chrono::duration<double>(std::chrono::steady_clock::now() - t_start).count())) + " s in shard 0");
         benum::bound(gr.name, complete && dry_ok);
     }
     counters.emit();
